@@ -271,6 +271,16 @@ func (h *supH) build() {
 			Namespace: "default", Replicas: 1, LaunchTimeout: 5, DependsOn: types.DependsOnConfig{},
 			Disabled: c.has('x'),
 		}
+		if c.has('D') {
+			// a background (forking) process: the command is its launcher (component `daemon` only)
+			pc.IsDaemon = true
+		}
+		if c.has('C') {
+			pc.ShutDownParams.ShutDownCommand = "true"
+		}
+		if c.has('v') {
+			pc.LivenessProbe = &health.Probe{Exec: &health.ExecProbe{Command: "true"}, InitialDelay: 36000, PeriodSeconds: 36000}
+		}
 		if c.has('g') {
 			// one replica of a replicated process: the process name differs from the replica name
 			// (every registry of the runner is keyed by the replica name)
